@@ -144,7 +144,14 @@ def lattice(tier):
       continue
     add(_cfg("ternary", {"alpha": a, "threshold": t, "number_of_unrolls": n}),
         ("r2", "r1"))
-  add(_cfg("ternary", {"alpha": "auto", "use_stochastic_rounding": True}, phase=1, tf_seed=2))
+  for a, n in itertools.product(["auto", "auto_po2"], [5, 1]):
+    add(_cfg("ternary", {"alpha": a, "use_stochastic_rounding": True, "number_of_unrolls": n},
+             phase=1, tf_seed=2), ("sr", "r3"))
+  # binary with stochastic rounding: training phase only (the inference path
+  # raises, C08-KF2); every alpha kind, use_01 both
+  for u01, a in itertools.product([False, True], [None, 0.5, 2.0, [0.5, 2.0], "auto", "auto_po2"]):
+    add(_cfg("binary", {"use_01": u01, "alpha": a, "use_stochastic_rounding": True},
+             phase=1, tf_seed=29), ("sr",) if isinstance(a, list) else ("sr", "r3"))
   for a, real, ph in itertools.product([None, 0.5, 2.0, "auto", "auto_po2"], [True, False], [0, 1]):
     add(_cfg("stochastic_binary", {"alpha": a, "use_real_sigmoid": real}, phase=ph, tf_seed=17))
   for a, real in itertools.product([None, 0.5, "auto", "auto_po2"], [True, False]):
@@ -216,7 +223,17 @@ def probe_points(cfg):
   return pts
 
 
+SR_SMALL = [0.04, -0.3, 0.6, -0.93, 0.5, 0.0, -0.11, 0.77, 0.25, -0.0, 1e-30, -0.62]
+SR_LARGE = [1.1, -2.5, 6.0, -0.04, 0.3, 0.0, -1.0, 3.3, 0.93, -0.6, 1e30, -1e-30]
+
+
 def probe(cfg, layout, channels=None):
+  if layout == "sr":
+    # two channels: one with max|x| <= 1 (the rounding scale f follows the
+    # data), one with max|x| > 1 (f = 2); no all-zero channel
+    xs = np.asarray([v for pair in zip(SR_SMALL, SR_LARGE) for v in pair], dtype=F32)
+    rs = [R_CYCLE[(3 * j + j // 5) % len(R_CYCLE)] for j in range(len(xs))]
+    return {"cfg": cfg, "shape": [len(SR_SMALL), 2], "xs": [float(v) for v in xs], "rs": rs}
   pts = probe_points(cfg)
   a = cfg["kw"].get("alpha", None)
   c = len(a) if isinstance(a, list) else (channels or (3 if layout == "r3" else 2))
@@ -349,12 +366,18 @@ def case_strategy(tier):
     elif cls == "binary":
       kw["alpha"] = alpha(["none", "const", "list", "auto", "auto_po2"])
       kw["use_01"] = draw(st.booleans())
-      if isinstance(kw["alpha"], str):
+      if rank >= 2 and draw(st.integers(0, 2)) == 0:
+        kw["use_stochastic_rounding"] = True       # training phase only (C08-KF2)
+        phase, seed = 1, draw(st.integers(0, 99))
+      elif isinstance(kw["alpha"], str):
         scale_opts(True)
     elif cls == "ternary":
       kw["alpha"] = alpha(["none", "const", "list", "auto", "auto_po2"])
       if isinstance(kw["alpha"], str):
         kw["number_of_unrolls"] = draw(st.sampled_from([5, 1, 2, 3]))
+        if rank >= 2 and draw(st.integers(0, 2)) == 0:
+          kw["use_stochastic_rounding"] = True
+          phase, seed = 1, draw(st.integers(0, 99))
       elif draw(st.booleans()):
         kw["threshold"] = draw(st.sampled_from([0.1, 0.33, 0.5, 0.9]))
     elif cls == "stochastic_binary":
@@ -410,6 +433,11 @@ def case_strategy(tier):
                           st.booleans()).map(around)] * 2
     elem = st.one_of(parts + [st.sampled_from(EXTREMES)] if draw(st.integers(0, 3)) == 0 else parts)
     xs = [float(F32(v)) for v in draw(st.lists(elem, min_size=n, max_size=n))]
+    if kw.get("use_stochastic_rounding") and cls in ("binary", "ternary"):
+      # every channel (last axis) contains a non-zero element (C08-KF3: NaN otherwise)
+      for c in range(ch):
+        if not any(xs[j] != 0.0 for j in range(c, n, ch)):
+          xs[c] = 0.375
     rs = draw(st.lists(st.sampled_from([1.0, -1.0, 2.0, 0.5, -0.75, 3.0, 1.5, -0.25]),
                        min_size=n, max_size=n))
     return {"cfg": cfg, "shape": shape, "xs": xs, "rs": rs}
